@@ -9,8 +9,12 @@ let n_lt a b = (match N.compare a b with Lt -> true | _ -> false)
 
 let check inp obs =
   match split_ws inp with
-  | ["dec"; kind; ds; hx] ->
+  | "dec" :: kind :: ds :: hx :: dirt ->
+    (* dirt (optional): what the Go destination held before the decode; the model ignores it *)
     let d = parse_dty ds in
+    let nested = (match dirt with
+        | [dv] -> (try dirty_nested (wire_ty d) (parse_value d dv) with Parse _ -> false)
+        | _ -> false) in
     let t = wire_ty d in
     let bs = bytes_of_hex hx in
     let len = List.length bs in
@@ -39,12 +43,27 @@ let check inp obs =
         | _ -> (None, obs, "?")) in
     let prop = (match impl with Some o -> c12_prop t bs o | None -> false) in
     let model_eq = (model_str = obs_core) && bucket_ok obs_bucket in
-    let finding = if prop then "-" else if bytes_overrun t bs then "bytes-overrun"
+    let finding = if prop then "-" else if nested then "dirty-nested-option"
+      else if bytes_overrun t bs then "bytes-overrun"
       else if map_noncanonical t bs then "map-noncanonical" else "-" in
     let outcome_tag = (match res with Ok _ -> "m-ok" | Err _ -> "m-err" | Panic -> "m-panic" | OutOfFuel -> "m-nofuel") in
+    (* which branch of the model's dec_uint / dec_big the first byte selects (types that start
+       with a compact integer), with the outcome: one bucket per modelled branch *)
+    let compact_tag = (match t, bs with
+        | (TUint | TInt | TBig | TBytes | TStr | TSlice _ | TMap _), b0 :: _ ->
+          let p = int_of_byte b0 in
+          let who = (match t with TBig -> "cb" | TUint | TInt -> "cu" | _ -> "cl") in
+          let mode = (match p land 3 with
+              | 0 -> "1b" | 1 -> "2b" | 2 -> "4b"
+              | _ -> let k = (p lsr 2) + 4 in
+                if k = 4 then "big4" else if k = 8 then "big8" else if k < 8 then "big5to7" else "big9up") in
+          [Printf.sprintf "%s-%s-%s" who mode (match res with Ok _ -> "ok" | _ -> "err")]
+        | _ -> []) in
     let tags = String.concat "," (
-        ["dec"; "gen-" ^ kind; outcome_tag; (if wf_ty t then "wf" else "NOT-WF")]
+        ["dec"; "gen-" ^ kind; outcome_tag] @ (if nested then ["dirty-nested"] else []) @ [ (if wf_ty t then "wf" else "NOT-WF")]
         @ (if sure_large then ["alloc-large"] else if sure_small then ["alloc-small"] else ["alloc-mid"])
+        @ compact_tag
+        @ (if not prop then ["PROP-FAIL-" ^ finding] else [])
         @ ty_kinds d []) in
     { prop_ok = prop; model_eq; nontrivial = (len >= 1); finding; tags;
       detail = (if prop && model_eq then "" else
@@ -53,10 +72,40 @@ let check inp obs =
                     (hex_of_n cost)) }
   | _ -> fail "C12: bad input %s" (if String.length inp > 200 then String.sub inp 0 200 else inp)
 
+(* vm_compute cross-check: the decode of the same bytes recomputed inside Coq and compared with
+   what the implementation returned (small inputs only; cases inside the dirty-nested guard, where
+   the implementation is known to differ, are not rendered) *)
+let coq inp obs =
+  match split_ws inp with
+  | "dec" :: _ :: ds :: hx :: dirt ->
+    let d = parse_dty ds in
+    let t = wire_ty d in
+    let bs = bytes_of_hex hx in
+    let len = List.length bs in
+    let nested = (match dirt with
+        | [dv] -> (try dirty_nested t (parse_value d dv) with Parse _ -> true)
+        | _ -> false) in
+    if len > 200 || nested then None else
+    let (_, cost) = run_decode current t bs in
+    if n_lt (n_of_int 20000) cost then None else
+    (match split_ws obs with
+     | ["ok"; vt; c; _] when not (String.contains vt '?') ->
+       (try
+          let v = parse_value d vt in
+          let consumed = int_of_string ("0x" ^ c) in
+          Some (Printf.sprintf "dec_matches (decode_res current %s %s) (Some (%s, %d%%nat))"
+                  (coq_ty t) (coq_bytes bs) (coq_value v) (len - consumed))
+        with Parse _ -> None)
+     | ["err"; _] ->
+       Some (Printf.sprintf "dec_matches (decode_res current %s %s) None" (coq_ty t) (coq_bytes bs))
+     | _ -> None)
+  | _ -> None
+
 (* the model materialises byte strings of up to 1 MiB as lists: the extracted list functions are
    not tail recursive, so re-execute under a large stack *)
 let () =
   if Sys.getenv_opt "VERIF_BIGSTACK" = None then
     exit (Sys.command ("ulimit -s 4000000 2>/dev/null || ulimit -s unlimited 2>/dev/null; ulimit -v 12000000 2>/dev/null; VERIF_BIGSTACK=1 exec "
-                       ^ Filename.quote Sys.executable_name))
-  else run_driver check
+                       ^ Filename.quote Sys.executable_name
+                       ^ (if Array.length Sys.argv > 1 then " " ^ Filename.quote Sys.argv.(1) else "")))
+  else run_driver ~coq check
